@@ -62,6 +62,8 @@ def repr_value(v, depth=0):
         return "..."
     if type(v).__name__ == "UnionProxy":
         v = object.__getattribute__(v, "__target__")
+    if type(v).__name__ == "SBytes" and v.concrete() is not None:
+        return ("BaseType", v.concrete())  # engine value with concrete content (input went through the BytesIO model)
     if isinstance(v, Structure):
         return tuple((n, repr_value(getattr(v, n), depth + 1)) for n in type(v).fields)
     if isinstance(v, enum.Enum):
